@@ -337,6 +337,8 @@ static inline Elem gen_elem(Rng &r, int maxdepth, bool force_bundle = false)
         for(int i = 0; i < n; ++i) e.kids.push_back(gen_elem(r, maxdepth - 1));
     } else {
         e.msg = gen_msg(r, 6, true);
+        // the shortest possible messages (8 bytes: short address, no arguments) sit on every "is there room for another element" boundary
+        if(r.chance(0.08)) { static const char *SA[] = {"/go", "/a", "/ab", "/"}; e.msg.addr = SA[r.below(4)]; e.msg.types.clear(); e.msg.vals.clear(); }
         // addresses that come close to the bundle marker stay messages; only the exact spelling is a bundle
         if(r.chance(0.04)) { static const char *near[] = {"#bundle2", "#bundles/gain", "#bundl", "#bundlE", "#bundle/", "#bundle#", "#bundle "}; e.msg.addr = near[r.below(7)]; }
         if(e.msg.addr == "#bundle") e.msg.addr = "/bundle";
